@@ -239,4 +239,117 @@ theorem parseLines_fuel_stable (pc : CmdParser) (hp : LineProgress pc) :
         rw [ih r k1 k2 (by omega) (by omega) (by omega)]
 
 
+
+/-! ## End of input directly after the last token: lists, programs, the last script line -/
+
+theorem lexToken_amp_eof : lexToken ['&'] = some (⟨[], .op .and⟩, []) := by rfl
+
+theorem parseCommand_eof (n : Nat) : parseCommand (n + 1) [] = some (none, []) := by rfl
+
+theorem listEnd_eof (n : Nat) : ListEnd (parseCommand (n + 1)) false [] ∧ CloserAt [] := by
+  refine ⟨⟨?_, lexToken_amp_eof, (fun h => Bool.noConfusion h), ?_, ⟨_, _, lexToken_eof⟩⟩,
+    ⟨_, _, lexToken_eof, by simp [Token.isOp], by simp [Token.isClauseDelimiter]⟩⟩
+  · simp [NoCmdAt, parseAndOr, parsePipeline, parseCommand_eof, lexToken_eof, Token.isKw]
+  · intro t r h
+    rw [lexToken_eof] at h
+    cases h
+    simp [Token.isOp]
+
+theorem ends_eof : EndsWithout [] contOps := by
+  refine ⟨Or.inl rfl, ?_⟩
+  intro o r h
+  rw [lexToken_eof] at h
+  cases h
+
+theorem ends_amp_eof : EndsWithout ['&'] contOps :=
+  endsWithout_of _ (tailOk_cons '&' [] (Or.inr (Or.inl rfl))) _ _ lexToken_amp_eof contOps (by decide)
+
+/-- programs of the closed fragment that the end of input follows directly -/
+def ProgramEofOk (l : List Item) : Prop := ItemsOk false l []
+
+theorem program_eof_rt (l : List Item) (h : ProgramEofOk l) (n fuel : Nat) (hn : ldepth l ≤ n) (hf : 1 ≤ fuel) :
+    parseCompoundList (parseCommand (n + 1)) fuel (printList false l) = some (l, []) := by
+  have hpc := parseCommand_pcOk n
+  have hl := list_rt' (parseCommand (n + 1)) n hpc false l [] ends_amp_eof (fun e => Bool.noConfusion e)
+    (fun _ => ends_eof) (listEnd_eof n) h hn
+  have := hl false (fun _ => rfl) fuel hf
+  simpa using this
+
+theorem parseProgram_eof_rt (l : List Item) (h : ProgramEofOk l) :
+    parseProgram (printList false l) = some (l, []) := by
+  unfold parseProgram
+  have hd := ldepth_le false l
+  exact program_eof_rt l h ((printList false l).length + 1) _ (by omega) (by omega)
+
+/-- `Parser::command_line` on a last line that no newline ends -/
+theorem commandLine_eof_rt (n : Nat) (l : List Item) (hne : l ≠ []) (h : ProgramEofOk l) (hd : ldepth l ≤ n) :
+    parseCommandLine (parseCommand (n + 1)) (printList false l) = some (some l, []) := by
+  have hpc := parseCommand_pcOk n
+  have hrt := items_rt _ n hpc false [] ends_amp_eof (fun e => Bool.noConfusion e) (fun _ => ends_eof) l h hd
+  have hlen := itemsRT_length _ false _ l hrt
+  rw [← printList_eq] at hlen
+  have hl := parseList_rt _ false [] (listEnd_eof n).1 l ((printList false l).length + 2) false
+    (by simp only [List.append_nil] at hlen; omega) hrt (fun _ => rfl)
+  rw [← printList_eq] at hl
+  simp only [Bool.false_eq_true, if_false, List.nil_append, List.append_nil] at hl
+  unfold parseCommandLine
+  rw [hl]
+  cases l with
+  | nil => exact absurd rfl hne
+  | cons _ _ => simp [lexToken_eof, Token.isOp]
+
+
+/-- the text of a script whose last line `l` is not ended by a newline -/
+def scriptTextLast : List (List Item) → List Item → List Char
+  | [], l => printList false l
+  | x :: ls, l => printList false x ++ '\n' :: scriptTextLast ls l
+
+/-- scripts of the closed fragment whose last line the end of input follows directly -/
+def ScriptLastOk : List (List Item) → List Item → Prop
+  | [], l => ProgramEofOk l
+  | x :: ls, l => LineOk x (scriptTextLast ls l) ∧ ScriptLastOk ls l
+
+theorem lines_last_rt (n : Nat) (l : List Item) (hne : l ≠ []) (hdl : ldepth l ≤ n) :
+    ∀ ls : List (List Item), ScriptLastOk ls l → (∀ x ∈ ls, ldepth x ≤ n) →
+    ∀ fuel, ls.length + 2 ≤ fuel →
+      parseLines (parseCommand (n + 1)) fuel (scriptTextLast ls l) = some (ls ++ [l]) := by
+  intro ls
+  induction ls with
+  | nil =>
+    intro h _ fuel hf
+    obtain ⟨k, rfl⟩ : ∃ k, fuel = k + 2 := ⟨fuel - 2, by simp at hf; omega⟩
+    have h1 := commandLine_eof_rt n l hne h hdl
+    simp only [scriptTextLast, parseLines, h1, commandLine_eof, Option.map_some, List.nil_append]
+  | cons x ls ih =>
+    intro h hd fuel hf
+    obtain ⟨k, rfl⟩ : ∃ k, fuel = k + 1 := ⟨fuel - 1, by omega⟩
+    have h1 := commandLine_rt n x (scriptTextLast ls l) h.1 (hd x (List.mem_cons_self ..))
+    have h2 := ih h.2 (fun y hy => hd y (List.mem_cons_of_mem _ hy)) k (by simp at hf; omega)
+    simp only [scriptTextLast, parseLines, h1, h2, Option.map_some, List.cons_append]
+
+theorem scriptTextLast_length (ls : List (List Item)) (l : List Item) :
+    ls.length ≤ (scriptTextLast ls l).length ∧ (printList false l).length ≤ (scriptTextLast ls l).length ∧
+    ∀ x ∈ ls, ldepth x ≤ (scriptTextLast ls l).length := by
+  induction ls with
+  | nil => simp [scriptTextLast]
+  | cons y ls ih =>
+    obtain ⟨i1, i2, i3⟩ := ih
+    simp only [scriptTextLast, List.length_cons, List.length_append]
+    refine ⟨by omega, by omega, ?_⟩
+    intro x hx
+    rcases List.mem_cons.mp hx with rfl | hm
+    · have := ldepth_le false x; omega
+    · have := i3 x hm; omega
+
+/-- a whole script whose last line is not ended by a newline, read to the end of input -/
+theorem script_last_rt (ls : List (List Item)) (l : List Item) (hne : l ≠ []) (h : ScriptLastOk ls l) :
+    parseScript (scriptTextLast ls l) = some (ls ++ [l]) := by
+  unfold parseScript
+  obtain ⟨i1, i2, i3⟩ := scriptTextLast_length ls l
+  have hl := ldepth_le false l
+  apply lines_last_rt _ l hne (by omega) ls h
+  · intro x hx; have := i3 x hx; omega
+  · omega
+
+
 end YashModel.Syntax
